@@ -30,7 +30,8 @@ def build_t(spec):
     if k == "minmax":
         return TabularToSeriesAdaptor(MinMaxScaler())
     if k == "imputer":
-        return Imputer(method=spec[1] if len(spec) > 1 else "drift")
+        meth = spec[1] if len(spec) > 1 else "drift"
+        return Imputer(method=meth, value=1.0 if meth == "constant" else None)
     if k == "opt":
         return OptionalPassthrough(build_t(spec[1]), passthrough=spec[2])
     if k == "rect":
@@ -38,11 +39,11 @@ def build_t(spec):
     raise ValueError(spec)
 
 
-def _always(y):
+def _always(y, sp=None):
     return True
 
 
-def _never(y):
+def _never(y, sp=None):
     return False
 
 
